@@ -1804,7 +1804,14 @@ class NPShim(types.ModuleType):
             if dtype is not None and _np.dtype(dtype).kind in 'iub' and not _has_sym(x):
                 return _np.asarray(x.tolist(), dtype=dtype)
             return x if isinstance(x, SA) else x.view(SA)
-        a = _np.asarray(x) if not isinstance(x, _np.ndarray) else x
+        if isinstance(x, _np.ndarray): a = x
+        else:
+            try:
+                a = _np.asarray(x)
+            except ValueError:
+                # ragged nested sequence: legal in NumPy only with dtype=object (1-D array of the original items)
+                if dtype is not None and _np.dtype(dtype) == _np.dtype(object): return _np.asarray(x, dtype=object)
+                raise
         if a.dtype == object:
             if _has_sym(a):
                 if dtype is not None and _np.dtype(dtype).kind in 'SU':
